@@ -1,4 +1,4 @@
-import FluteModel.Lemmas.SchedRRLift
+import FluteModel.Lemmas.SchedRRMulti
 /-
   C13 - Scheduling: FIFO admission, multiplex bound (strict priority and round robin: see below).
   Interleave window (`open blocks ≤ interleave_blocks`, opened in increasing SBN) is a property of one
@@ -238,6 +238,32 @@ theorem round_robin_partial (cfg : Cfg) (tbl : List Nat) (ops : List Op) (pre po
             f'.nSym = f.nSym))) :=
   read_rr cfg tbl ops pre post q j c f now ticks hsess hjs hf hg hs hlt p t i b hout
 
+/-- Round robin over CONSECUTIVE CALLS: after every operation history, let slot `j` of priority queue `q` hold a
+    transfer `c` whose packet is due at `now`.  If the next `k` calls of `read(now)` (any tick inputs) all return
+    object packets of `q`'s priority that are NOT `c`'s, then `k ≤ rrDist q.index j n ≤ n - 1`
+    (`AllOut P s now tks`: the outputs of the consecutive reads `tks` from `s` all satisfy `P`).  So between two
+    consecutive packets of one slot, a due peer slot of the queue is never passed over twice: in a run of packets of
+    the queue the due slot is served after at most `n - 1` peer packets - each peer at most once, since a peer that
+    has emitted becomes the farthest slot.
+    Scope: runs of calls that return packets of this queue.  A call that returns an FDT packet or a packet of a
+    higher-priority queue in between is not covered by this statement (it does not poll `q`, or polls it with an
+    FDT pending and leaves the index where it was - checked by the oracle `C13:round-robin` only). -/
+theorem round_robin_over_calls (cfg : Cfg) (tbl : List Nat) (ops : List Op) (pre post : List QSess) (q : QSess)
+    (j : Nat) (c : Cur) (f : FileDesc) (now : Nat) (tks : List (List (Nat × Nat)))
+    (hsorted : (cfg.queues.map (fun x => x.1)).Pairwise (fun a b => a < b))
+    (hsess : (run (init cfg tbl) ops).sessions = pre ++ q :: post)
+    (hjs : q.slots[j]? = some (some c)) (hf : getF (run (init cfg tbl) ops).objs c.key = some f)
+    (hg : gateBlocked f now = false) (hs : c.enc.stopped = false) (hlt : c.enc.sent < f.nPk)
+    (hall : AllOut (fun o => ∃ t i b, o = Out.pkt q.prio t i b ∧ t ≠ c.key) (run (init cfg tbl) ops) now tks) :
+    tks.length ≤ rrDist q.index j q.slots.length ∧ rrDist q.index j q.slots.length < q.slots.length := by
+  have hj : j < q.slots.length := by
+    rcases Nat.lt_or_ge j q.slots.length with h | h
+    · exact h
+    · rw [List.getElem?_eq_none h] at hjs; cases hjs
+  have hidx : q.index < q.slots.length := run_idx cfg tbl ops q (by rw [hsess]; simp)
+  exact ⟨rr_multi cfg tbl hsorted now post j c q.prio q.slots.length tks ops pre q f hsess rfl rfl hjs hf hg hs hlt hall,
+    rrDist_lt _ _ _ hidx hj⟩
+
 /-! non-vacuity: two objects multiplexed in one queue with 2 slots, a third one waiting -/
 def cfg2 : Cfg := { mode := .full, fdtCarousel := .delay 1000, fdtDuration := 3600000000000, fdtStartId := 1, queues := [(0, 2)] }
 def obj (n : Nat) : AddArgs := { prio := 0, nSym := n, maxCount := 1, carousel := none, start := none, target := none, allowStop := false }
@@ -274,5 +300,11 @@ example : (getNextFile (run (init cfg2 [1]) [.add objLate, .add (obj 3), .publis
     1 ∈ (run (init cfg2 [1]) [.add objLate, .add (obj 3), .publish 5]).queue ∧
     fresh (run (init cfg2 [1]) [.add objLate, .add (obj 3), .publish 5]) 1 = true ∧
     fresh (run (init cfg2 [1]) [.add objLate, .add (obj 3), .publish 5]) 2 = true := by decide
+
+/-- non-vacuity of `round_robin_over_calls`: from the state of `hist`, slot 1 (TOI 2) is due and ONE call returns the
+    peer's (TOI 1) packet (`rrDist 0 1 2 = 1`); the second call returns TOI 2's -/
+example : AllOut (fun o => ∃ t i b, o = Out.pkt 0 t i b ∧ t ≠ 2) (run (init cfg2 [1]) hist) 5 [[]] ∧
+    (∃ i b, (read (read (run (init cfg2 [1]) hist) 5 []).1 5 []).2 = Out.pkt 0 2 i b) := by
+  refine ⟨⟨⟨1, 1, false, by decide, by decide⟩, trivial⟩, ⟨1, false, by decide⟩⟩
 
 end Flute.Props.C13
